@@ -140,9 +140,15 @@ func cmdCheck(args []string) int {
 	if *tier == "thorough" {
 		timeout = 60
 	}
-	workDir := filepath.Join(verifRoot, "work", "vc", id)
+	// GOVC_OUT redirects everything a run writes (VCs, replays, evidence) to a scratch directory:
+	// used only when trying seeded changes in scratch worktrees, several at a time
+	outRoot := verifRoot
+	if o := os.Getenv("GOVC_OUT"); o != "" {
+		outRoot = o
+	}
+	workDir := filepath.Join(outRoot, "work", "vc", id)
 	os.RemoveAll(workDir)
-	replayDir := filepath.Join(verifRoot, "replays", id)
+	replayDir := filepath.Join(outRoot, "replays", id)
 	os.MkdirAll(replayDir, 0o755)
 
 	var baseline Baseline
@@ -447,9 +453,9 @@ func cmdCheck(args []string) int {
 		"wall_s":      round3(wall),
 		"violations":  violations,
 	}
-	os.MkdirAll(filepath.Join(verifRoot, "evidence"), 0o755)
+	os.MkdirAll(filepath.Join(outRoot, "evidence"), 0o755)
 	data, _ := json.MarshalIndent(ev, "", " ")
-	os.WriteFile(filepath.Join(verifRoot, "evidence", id+".json"), data, 0o644)
+	os.WriteFile(filepath.Join(outRoot, "evidence", id+".json"), data, 0o644)
 	if violations > 0 {
 		return 1
 	}
